@@ -22,7 +22,7 @@ def conditions(tier):
     rshapes = [(1, 3), (2, 2), (3, 1)] if q else [(1, 2), (1, 3), (3, 1), (2, 2), (2, 3), (3, 2)]
     for codec in ("lits", "norinori", "heyawake"):
         for (h, w) in rshapes:
-            lmax = 2 if h * w <= 4 else 1
+            lmax = 2 if (h * w <= 3 or (h * w == 4 and codec != "heyawake")) else 1
             cs.append(C(H16, codec, "h_rooms_codec", h, w, t=2 * T, VERIF_LMAX=lmax,
                         key="rooms-codec:%s:%s" % (codec, "1xN" if min(h, w) == 1 else "HxW")))
     cs.append(C(H16, "heyawake", "h_rooms_codec", 2, 3, t=2 * T, VERIF_WIDEVALS=1, key="rooms-codec:heyawake:HxW"))
